@@ -202,6 +202,11 @@ Inductive top :=
          executing the script *)
 | TAllowC (i : nat) (now_ms : Z) (n : Z) (rescue : bool)
       (* AllowNCtx with a context that is already cancelled: the command is never sent *)
+| TAllowD (i : nat) (now_ms : Z) (n : Z) (rescue : bool) (ran : bool)
+      (* THE CALLER'S CONTEXT BECOMES DONE DURING THE STORE CALL (deadline or cancel; live on entry):
+         go-redis gives up with ctx.Err() while the request waits for a connection or sleeps before
+         a retry.  [ran]: the script had already been run by the store (the reply was lost) or not.
+         reserveN refuses; this is the caller's condition, not a store failure: no monitor. *)
 | TPong (i : nat)
       (* the store HAD answered the monitor's Ping (while it was reachable) and only now the
          monitor goes on: it stores redisAlive = 1 and leaves, whatever the store's state is now *)
@@ -292,6 +297,17 @@ Definition tstep (c : tcfg) (s : tstate) (o : top) : tstate * tobs :=
                     else TR rescue false false)
     | None => (s, TU)
     end
+  | TAllowD i now n rescue ran =>
+    match nth_error (tinsts s) i with
+    | Some t =>
+      if negb (alive t) then (s, TR rescue false false)       (* rescue mode: the store is not asked *)
+      else if ran then
+        let '(_, st') := eval Lua_token.script [ktokens c; kts c]
+                           [BInt (rate c); BInt (burst c); BInt (unix_s now); BInt n] (tstore s) in
+        (mkTS st' (tdown s) (tinsts s), TR false true true)   (* the bucket was charged, the answer lost *)
+      else (s, TR false true false)
+    | None => (s, TU)
+    end
   | TPong i =>
     match nth_error (tinsts s) i with
     | Some t => if monitor t
@@ -372,6 +388,16 @@ Definition sp_tstep (c : tcfg) (a : tspec) (o : top) : tspec * tobs :=
                     else TR rescue false false)
     | None => (a, TU)
     end
+  | TAllowD i now n rescue ran =>
+    match nth_error (sp_insts a) i with
+    | Some t =>
+      if negb (alive t) then (a, TR rescue false false)
+      else if ran then
+        let '(b', _) := bucket_take (rate c) (burst c) (sp_bucket a) (unix_s now) n in
+        (mkSp b' (sp_clock a) (sp_tdown a) (sp_insts a), TR false true true)
+      else (a, TR false true false)
+    | None => (a, TU)
+    end
   | TPong i =>
     match nth_error (sp_insts a) i with
     | Some t => if monitor t
@@ -404,7 +430,7 @@ Fixpoint twf (clock : Z) (ops : list top) : bool :=
   match ops with
   | [] => true
   | TAllow _ now n _ _ :: ops' | TAllowF _ now n _ _ :: ops' | TAllowC _ now n _ :: ops'
-  | TAllowLate _ now n _ _ :: ops' =>
+  | TAllowLate _ now n _ _ :: ops' | TAllowD _ now n _ _ :: ops' =>
     (now =? clock) && (0 <=? n) && twf clock ops'
   | TAdvance ms :: ops' => (0 <=? ms) && twf (clock + ms) ops'
   | _ :: ops' => twf clock ops'
